@@ -559,6 +559,12 @@ func Run(r *common.Run) error {
 			c.check(ns, m, `<iq type="get" id="D" from="a@example.org/r"><q xmlns="urn:q"><!--c--></q></iq>`, progOf(nil, "D", 9, "ok"), "corpus")
 		}
 		c.check(ns, "d", `<iq type="get" id="f1"><q xmlns="urn:q"/></iq>`, progOf(nil, "f1", 0, "eof"), "corpus")
+		// attributes qualified with the stanza's own namespace are not the stanza's attributes
+		for _, m := range modes {
+			c.check(ns, m, `<iq xmlns:c="`+ns+`" type="get" id="o1" c:id="o1x" from="a@example.org/r"><q xmlns="urn:q"/></iq>`, progOf(nil, "o1", 0, "ok"), "corpus")
+			c.check(ns, m, `<iq xmlns:c="`+ns+`" c:type="result" type="set" id="o2" c:from="zz@example.org" from="a@example.org/r" c:to="yy@example.org"><q xmlns="urn:q"/></iq>`, progOf(nil, "o2", 1, "ok"), "corpus")
+			c.check(ns, m, `<iq xmlns:c="`+ns+`" c:type="get" type="result" id="o3" c:id="o3x"><q xmlns="urn:q"/></iq>`, progOf(nil, "o3", 0, "ok"), "corpus")
+		}
 	}
 
 	// exhaustive: incoming element shapes x single writes / pairs of writes x modes
